@@ -27,7 +27,8 @@ META = {
         ' (fold) the tokenizer does not merge a binary operator with a following '
         'sign; (filters) the matcher order respects the overlaps Error<Range, '
         'Number<Range, Intersect last.'
-        ' (predsnap) the rank an operator token is compared with is read after the token has been renamed by its context (no stale copy of `pred`); (signrun) the sign a folded run of + and - stands for is the parity of its minus signs; (filters) the order of the token matchers respects prefix overlaps.'),
+        ' (predsnap) the rank an operator token is compared with is read after the token has been renamed by its context (no stale copy of `pred`); (signrun) the sign a folded run of + and - stands for is the parity of its minus signs; (filters) the order of the token matchers respects prefix overlaps.'
+        ' (freshtoken) a token appended to the builder inside a loop is a new object on every iteration - the builder keys its nodes by token object.'),
     'not_decided': (
         'That parsing every spelling yields the spec tree (whitespace, case, '
         'redundant parentheses, argument counting across nesting) and the '
@@ -105,9 +106,19 @@ def rule_arity(ctx):
         raise AnalysisError('Operator._n_args is not a foldable table')
     default = None
     fac = d.factory
-    if isinstance(fac, FuncV) and fac.fi.is_lambda and isinstance(
-            fac.fi.node.body, ast.Constant):
-        default = fac.fi.node.body.value
+    if isinstance(fac, FuncV) and not fac.fi.params:
+        # `lambda: 2`, a def returning it, or a constant it names
+        body = fac.fi.node.body
+        if not fac.fi.is_lambda:
+            stmts = [st for st in body if not (isinstance(
+                st, ast.Expr) and isinstance(st.value, ast.Constant))]
+            body = stmts[0].value if len(stmts) == 1 and isinstance(
+                stmts[0], ast.Return) else None
+        if body is not None:
+            av = ctx.ev.eval(fac.fi.module, body,
+                             ctx.ev.module_env(fac.fi.module))
+            if is_const(av):
+                default = av.v
     rr.instances += 1
     if default == 2:
         rr.ok('default arity is 2', OP)
@@ -863,6 +874,63 @@ def rule_predsnap(ctx):
                     'operator and no longer binds tightest')
 
 
+def rule_freshtoken(ctx):
+    rr = RuleResult('C01', 'C01.freshtoken', 'DEF',
+                    'a token appended to the builder inside a loop is a new '
+                    'object on every iteration', floor=1)
+    p = ctx.project
+    scope = [m for m in p.modules.values() if m.rel.startswith(
+        'formulas/tokens/') or m.rel in ('formulas/parser.py',
+                                         'formulas/builder.py')]
+    for m in scope:
+        for f in m.all_funcs:
+            loops = [n for n in own_nodes(f) if isinstance(
+                n, (ast.For, ast.While))]
+            for lp in loops:
+                inside = set()
+                for st in lp.body + lp.orelse:
+                    inside |= {id(x) for x in ast.walk(st)}
+                for c in [x for st in lp.body for x in ast.walk(st)
+                          if isinstance(x, ast.Call) and isinstance(
+                              x.func, ast.Attribute) and x.func.attr ==
+                          'append' and isinstance(x.func.value, ast.Name) and
+                          x.func.value.id in f.all_params and
+                          x.func.value.id == 'builder' and len(x.args) == 1]:
+                    rr.instances += 1
+                    a = c.args[0]
+                    if not isinstance(a, ast.Name):
+                        rr.ok('%s appends `%s`, evaluated per iteration' % (
+                            f.qualname, norm_src(a)),
+                            '%s:%d' % (m.rel, c.lineno))
+                        continue
+                    binds = [n for n in own_nodes(f) if isinstance(
+                        n, ast.Assign) and any(isinstance(t, ast.Name) and
+                                               t.id == a.id for t in n.targets)]
+                    loopvar = any(isinstance(x, ast.Name) and x.id == a.id and
+                                  isinstance(x.ctx, ast.Store)
+                                  for x in ast.walk(lp))
+                    outer = [b for b in binds if id(b) not in inside]
+                    made = [b for b in outer if isinstance(
+                        b.value, ast.Call) and (ctx.cg.resolve_name_expr(
+                            f, b.value.func) or (None,))[0] == 'class']
+                    if made and len(binds) == len(outer) and not loopvar:
+                        rr.fail(key_of(f, 'one token object appended '
+                                          'repeatedly'),
+                                '%s creates `%s = %s` once and appends that '
+                                'one object on every iteration of the loop at '
+                                'line %d: the builder keys its nodes by token '
+                                'object, so the second use finds the node of '
+                                'the first and the earlier operands are '
+                                'dropped from the evaluated tree' % (
+                                    f.qualname, a.id, norm_src(made[0].value),
+                                    lp.lineno), file=m.rel,
+                                function=f.qualname, line=c.lineno)
+                    else:
+                        rr.ok('%s appends `%s`, bound per iteration' % (
+                            f.qualname, a.id), '%s:%d' % (m.rel, c.lineno))
+    return rr
+
+
 def run(ctx):
     S = ctx.soft
     r_prec, prec = rule_prec(ctx)
@@ -878,5 +946,5 @@ def run(ctx):
     rules = [r_prec, S(rule_arity, ctx)] + ([assoc] if assoc is not None else []) \
         + [S(rule_unary, ctx), S(rule_names, ctx, prec), S(rule_empty, ctx),
            S(rule_render, ctx), S(rule_fold, ctx), S(rule_signrun, ctx),
-           S(rule_filters, ctx), snap]
+           S(rule_filters, ctx), snap, S(rule_freshtoken, ctx)]
     return rules
